@@ -1,0 +1,12 @@
+//go:build verif
+// +build verif
+
+package host
+
+// Contracts for the deductive verifier in /verif (govc). Comment-only file.
+
+//@ func (*Set).Healthy
+//@   prop C18 C06 C15
+//@   modifies nothing
+//@   ensures @members-non-nil forall k int :: 0 <= k && k < len(result) ==> result[k] != nil
+//@   assume @ret forall k int :: 0 <= k && k < len(result) ==> result[k] != nil
